@@ -430,6 +430,8 @@ def _compare_trace(ops, itr, mtr, creators, g, all_adm):
                 return v, g, all_adm
             return None, g, all_adm
         if mout == [-1] or iout == [-1]:
+            if mout != iout and not before_adm:
+                return None, None, all_adm      # identities already differ after an operation outside the precondition
             if mout != iout:
                 return _verdict(False, 'C06:outside-model', 'step %d is outside the Model' % k), g, all_adm
             return None, g, False
@@ -501,6 +503,8 @@ def judge(case, io, mo):
                 if key != KNOWN_STALE:
                     return v
                 pending = pending or v      # keep looking: anything else in this case is reported first
+            if q[0] == 3 and all_adm and len(ma) > 3 and ma[3] == 0:
+                return _verdict(False, 'C06:spec-formulations', 'document order by position paths and by preorder index differ for %s' % describe_query(q))
             if ia != mval:
                 return _verdict(False, 'C06:view-divergence', '%s = %s, Model %s' % (describe_query(q), ia, mval), mval)
         return pending
